@@ -1,5 +1,6 @@
 //! Verification harness: drives the real crates (path dependencies on /repo, hooks enabled)
 //! from the line protocols shared with the Lean driver (`/verif/lean/Main.lean`).
+mod engine;
 mod pure;
 
 fn main() {
@@ -7,6 +8,7 @@ fn main() {
     let mode = args.get(1).map(|s| s.as_str()).unwrap_or("");
     match mode {
         "pure" => pure::run(),
+        "engine" => engine::run(),
         _ => {
             eprintln!("usage: verif-harness pure < cases");
             std::process::exit(2);
